@@ -51,6 +51,7 @@ type frame struct {
 }
 
 type Exec struct {
+	capTypes       map[string]types.Type // static types of captured call arguments
 	lastRangeBad   string // set by matcher: the range of the last ListRange/DeleteRange is rejected by the ORM
 	lastOrderField *TField
 	s      *Session
